@@ -4,7 +4,7 @@ import MakoModel.ModFile.Conc
 /-! Driver handler for the module-file model:
 
 `modfile hist <pycOn> <tok>…` - run a history; tokens: `S<mtime>` modify source, `D` delete module,
-`R<src>.<magic>.<mtime>.<size>.<file>` replace module (complete; file 0 = this template file), `K<t>` set clock,
+`R<src>.<magic>.<mtime>.<size>.<file>` replace module (complete; file 0 = this template file), `K<t>` set clock, `F<n>` later Templates are given spelling `n` of the file name,
 `C<f1>/<f2>/<crash>/<s1>/<s2>` construct (fates over `o r s`, `-` = none; crash `n` or a number),
 `H…` same with a `module_writer` that installs what it is given, `N…` with one that does nothing.
 Answer: one record per construct, `;`-separated:
@@ -78,6 +78,7 @@ def stepTok (st : World × List String) (tok : String) : Option (World × List S
   | some 'S' => do let m ← body.toNat?; pure (stepH w (.modifySrc m), out)
   | some 'D' => pure (stepH w .deleteMod, out)
   | some 'K' => do let t ← body.toNat?; pure (stepH w (.setClock t), out)
+  | some 'F' => do let n ← body.toNat?; pure (stepH w (.respell n), out)
   | some 'R' =>
     match body.splitOn "." with
     | [a, b, c, d, e] => do
